@@ -123,12 +123,11 @@ let rec nth_opt l n = match l with [] -> None | x :: r -> if n = 0 then Some x e
 exception Out_of_answers
 let life arch oc allp reset lifo overlay answers symtab lifetimes : string =
   let ov = parse_writes overlay in
-  let m0 : z -> z = fun a ->
-    let rec look = function
-      | [] -> zi 0xCC
-      | (b, bs) :: r -> let d = BZ.sub (bz_of_z a) (bz_of_z b) in
-          if BZ.sign d >= 0 && BZ.lt d (BZ.of_int (List.length bs)) then List.nth bs (BZ.to_int d) else look r in
-    look ov in
+  (* initial memory: the overlay (first entry wins) in a hash table keyed by the address; 0xCC elsewhere *)
+  let m0tab : (BZ.t, z) Hashtbl.t = Hashtbl.create 4096 in
+  List.iter (fun (b, bs) -> let b = bz_of_z b in List.iteri (fun i x -> let k = BZ.add b (BZ.of_int i) in if not (Hashtbl.mem m0tab k) then Hashtbl.add m0tab k x) bs) ov;
+  let cc = zi 0xCC in
+  let m0 : z -> z = fun a -> match Hashtbl.find_opt m0tab (bz_of_z a) with Some x -> x | None -> cc in
   let ans = Array.of_list (split ',' answers) in
   (* o_calls is a Peano numeral that grows by one per system call: convert incrementally *)
   let last_n = ref O and last_i = ref 0 in
@@ -145,16 +144,29 @@ let life arch oc allp reset lifo overlay answers symtab lifetimes : string =
   let c = { c_enc = enc_of arch oc; c_allp = allp; c_alloc = alloc_jit true } in   (* |d| < 128 MiB, as the repaired allocator *)
   let buf = Buffer.create 4096 in
   let tlen = ref 0 in
+  (* addresses written so far: the model's memory changes only in do_write, which logs an EWrite (Os.v); a symbol none of whose 16 bytes
+     was ever written still reads as in the initial memory, and is reported =ORIG without walking the chain of writes *)
+  let written : (BZ.t, z) Hashtbl.t = Hashtbl.create 4096 in     (* address -> the byte written last (replay of the EWrite events) *)
+  let mem_now (a : z) : z = match Hashtbl.find_opt written (bz_of_z a) with Some x -> x | None -> m0 a in
   let seg (s : os) = (* events appended since the last boundary *)
     let rec drop n l = if n = 0 then l else match l with [] -> [] | _ :: r -> drop (n - 1) r in
-    let t = drop !tlen s.o_trace in tlen := List.length s.o_trace; show_trace t in
+    let t = drop !tlen s.o_trace in tlen := !tlen + List.length t;
+    List.iter (function EWrite (a, bs) -> let a = bz_of_z a in List.iteri (fun i x -> Hashtbl.replace written (BZ.add a (BZ.of_int i)) x) bs | _ -> ()) t;
+    show_trace t in
+  let origs : (string, z list) Hashtbl.t = Hashtbl.create 64 in
   let resolve (s : os) : string =
     String.concat "," (List.filter_map (fun (n, a) ->
       if String.length n > 1 && (String.sub n 0 2 = "fk" || n.[0] = 'z') then None else
-      let orig = List.init 16 (fun i -> m0 (Z.add a (zi i))) in
-      let cur = List.init 16 (fun i -> s.o_mem (Z.add a (zi i))) in
+      let ab = bz_of_z a in
+      let touched = List.exists (fun i -> Hashtbl.mem written (BZ.add ab (BZ.of_int i))) [0; 1; 2; 3; 4; 5; 6; 7; 8; 9; 10; 11; 12; 13; 14; 15] in
+      if not touched then Some (n ^ "=ORIG") else
+      let orig = (match Hashtbl.find_opt origs n with Some o -> o | None -> let o = List.init 16 (fun i -> m0 (Z.add a (zi i))) in Hashtbl.add origs n o; o) in
+      (* the current bytes are read from the replay of the trace's writes; the model's own memory function (a chain of closures, one per
+         write) is consulted for one byte per symbol as a self-check that the two agree *)
+      let cur = List.init 16 (fun i -> mem_now (Z.add a (zi i))) in
+      if not (Z.eqb (s.o_mem a) (mem_now a)) then failwith ("driver self-check: replayed memory differs from the model's at " ^ hz a);
       if orig = cur then Some (n ^ "=ORIG") else begin
-        let stack = Monitor_glue.with_ret s.o_mem in
+        let stack = Monitor_glue.with_ret mem_now in
         let rec go fuel st =
           if fuel = 0 then "TIMEOUT" else
           if Z.eqb st.rip rETADDR then "RET:" ^ hz (st.xr RAX) else
@@ -185,15 +197,16 @@ let life arch oc allp reset lifo overlay answers symtab lifetimes : string =
           | ["P"] -> OpPanic
           | _ -> failwith ("bad op " ^ op) in
         match step c reset k !w o with
-        | SCont w' -> w := w'; Buffer.add_string buf (Printf.sprintf "L%d OP%d RES=cont EV=%s RESOLVE=%s\n" li oi (seg w'.w_os) (resolve w'.w_os))
+        | SCont w' -> w := w'; let ev = seg w'.w_os in let rs = resolve w'.w_os in Buffer.add_string buf (Printf.sprintf "L%d OP%d RES=cont EV=%s RESOLVE=%s\n" li oi ev rs)
         | SPanic (w', p, l) -> w := w'; first := Some p; raised := S O; leak := l; stop := true;
-            Buffer.add_string buf (Printf.sprintf "L%d OP%d RES=panic:%s EV=%s RESOLVE=%s\n" li oi (show_panic p) (seg w'.w_os) (resolve w'.w_os))
+            let ev = seg w'.w_os in let rs = resolve w'.w_os in Buffer.add_string buf (Printf.sprintf "L%d OP%d RES=panic:%s EV=%s RESOLVE=%s\n" li oi (show_panic p) ev rs)
         | SFault w' -> w := w'; stop := true; first := Some PUser;
             Buffer.add_string buf (Printf.sprintf "L%d OP%d RES=fault EV=%s RESOLVE=-\n" li oi (seg w'.w_os))
       end) (split ',' ops);
     let rep = scope_exit c lifo k !w !first !raised !leak in
     let ex = match rep.r_exit with XNormal -> "normal" | XPanic p -> "panic:" ^ show_panic p | XAbort -> "abort" | XFault -> "fault" in
-    Buffer.add_string buf (Printf.sprintf "L%d EXIT RES=%s EV=%s RESOLVE=%s OWNED=%d DIRTY=%d RAISED=%d UNLOCKED=%b LEAKED=%d\n" li ex (seg rep.r_os) (resolve rep.r_os)
+    let ev = seg rep.r_os in let rs = resolve rep.r_os in
+    Buffer.add_string buf (Printf.sprintf "L%d EXIT RES=%s EV=%s RESOLVE=%s OWNED=%d DIRTY=%d RAISED=%d UNLOCKED=%b LEAKED=%d\n" li ex ev rs
       (List.length rep.r_os.o_owned) (List.length rep.r_os.o_dirty) (int_of_nat rep.r_raised) rep.r_unlocked (List.length rep.r_leaked));
     w := { w_os = rep.r_os; w_inj = inj0; w_ctr = rep.r_ctr }) (String.split_on_char '|' lifetimes)
    with Out_of_answers -> Buffer.add_string buf "TRUNC the model asked the kernel for more than the implementation did\n");
